@@ -1,15 +1,17 @@
 (* Properties/C15.v -- C15: volume-weighted resampling draws grains in proportion to their
-   volume.  Only statements; each is closed by `exact` of a lemma of Proofs_stats.v.
+   volume.  Only statements; each is closed by `exact` of a lemma of Proofs_stats.v /
+   Proofs_stats_batch.v.
    Model: Model_stats.resample (variant `faithful` = the code as it is), R instance.
    ORACLES: argsort (np.argsort per snapshot) and draw (the calls rng.random(n) of
    numpy's Generator, in order); the hypotheses used are
      argsort_perm : argsort i f is a permutation of 0..len(f)-1      (tie order is free;
-                    that f o pi is ascending is checked at run time but no theorem needs it)
+                    that f o pi is ascending is checked at run time; only the converse u = 0
+                    statement takes "first sorted entry = minimum" as a hypothesis)
      draw_ok      : draw i n has n entries, each in [0,1)
      draw_pos     : each entry is > 0 (true of numpy's generator except with probability
                     2^-53 per draw; only zero_volume_never uses it) *)
 From Coq Require Import Reals ZArith List Permutation.
-From PV Require Import Num NumR Model_stats Proofs_stats.
+From PV Require Import Num NumR Model_stats Proofs_stats Proofs_stats_batch.
 Import ListNotations.
 Open Scope R_scope.
 
@@ -170,3 +172,59 @@ Example C15_nonvacuous :
   @data_ok nat [1; 2; 3; 3]%nat [1; 2]%nat [[7; 8]%nat] [[1/4; 3/4]] /\
   (Forall (fun x => 0 <= x) [1/4; 3/4] /\ lsum [1/4; 3/4] = 1).
 Proof. exact C15_nonvacuous_proof. Qed.
+
+(* ---- which variates can draw an empty grain; batch = map of the single call ------ *)
+(* Without assuming that the variates are positive: a volume <= 0 in the output of snapshot i
+   at sample s is possible ONLY when the s-th variate of the i-th draw is exactly 0.  The
+   probability of the violation is therefore exactly the probability that the generator
+   returns 0.0 (2^-53 per draw for binary64 variates, 2^-24 for binary32 variates). *)
+Theorem C15_zero_volume_only_at_u0 :
+  forall O argsort draw so sf (os : list (list O)) (fs : list (list R)) ns oo ff,
+  @resample NumR O argsort draw faithful so sf os fs ns = Ok (oo, ff) ->
+  argsort_perm argsort -> draw_ok draw ->
+  Forall (fun f => Forall (fun x => 0 <= x) f /\ lsum f = 1) fs ->
+  forall i s frow x, nth_error ff i = Some frow -> nth_error frow s = Some x -> x <= 0 ->
+    nth_error (draw i (n_of sf ns)) s = Some 0.
+Proof. intros O argsort draw. exact (zero_volume_only_at_u0 argsort draw). Qed.
+
+(* ... and conversely (general form of the u = 0 witness): if the sort is ascending (first
+   entry of the sorted volumes = their minimum) and the snapshot has a zero-volume grain, a
+   variate that is exactly 0 DOES draw a grain of volume 0 *)
+Theorem C15_u0_draws_zero_volume_grain :
+  forall O (orient : list O) (f : list R) pi us os' fs' fa s,
+  @resample_one NumR O faithful orient f pi us = Ok (os', fs') ->
+  is_perm (length f) pi -> Forall (fun x => 0 <= x) f ->
+  gather f pi = Ok fa -> Forall (fun y => nth 0 fa 0 <= y) fa -> In 0 f ->
+  nth_error us s = Some 0 -> nth_error fs' s = Some 0.
+Proof. intros O. exact resample_one_u0_draws_empty. Qed.
+
+(* row i of a stack call is the one-snapshot computation on snapshot i alone, with the i-th
+   sort permutation and the i-th draw: no data of another snapshot or an earlier call enters *)
+Theorem C15_batch_rowwise :
+  forall O argsort draw v so sf (os : list (list O)) (fs : list (list R)) ns oo ff,
+  @resample NumR O argsort draw v so sf os fs ns = Ok (oo, ff) ->
+  forall i orow frow, nth_error oo i = Some orow -> nth_error ff i = Some frow ->
+  exists o f, nth_error os i = Some o /\ nth_error fs i = Some f /\
+    @resample_one NumR O v o f (argsort i f) (draw i (n_of sf ns)) = Ok (orow, frow).
+Proof. intros O argsort draw. exact (batch_rowwise argsort draw). Qed.
+
+(* the stack call is the map of the single call: the function applied to the one-snapshot
+   stack [snapshot i], generator advanced to its i-th draw, returns exactly row i *)
+Theorem C15_batch_is_map_of_single :
+  forall O argsort draw v N M (os : list (list O)) (fs : list (list R)) ns oo ff,
+  @resample NumR O argsort draw v [N; M; 3; 3]%nat [N; M] os fs ns = Ok (oo, ff) ->
+  forall i o f, nth_error os i = Some o -> nth_error fs i = Some f ->
+  exists orow frow, nth_error oo i = Some orow /\ nth_error ff i = Some frow /\
+    @resample NumR O (fun j => argsort (i + j)%nat) (fun j => draw (i + j)%nat) v
+              [1; M; 3; 3]%nat [1; M]%nat [o] [f] ns = Ok ([orow], [frow]).
+Proof. intros O argsort draw. exact (batch_is_map_of_single argsort draw). Qed.
+
+(* non-vacuity of C15_u0_draws_zero_volume_grain: its hypotheses hold together on a concrete
+   snapshot (ascending sort, one empty grain, variates 0 and 1/2) *)
+Example C15_u0_nonvacuous :
+  @resample_one NumR nat faithful [7; 8; 9]%nat [1/2; 0; 1/2] [1; 0; 2]%nat [0; 1/2]
+    = Ok ([8; 7]%nat, [0; 1/2]) /\
+  is_perm 3 [1; 0; 2]%nat /\ Forall (fun x => 0 <= x) [1/2; 0; 1/2] /\ lsum [1/2; 0; 1/2] = 1 /\
+  gather [1/2; 0; 1/2] [1; 0; 2]%nat = Ok [0; 1/2; 1/2] /\
+  Forall (fun y => nth 0 [0; 1/2; 1/2] 0 <= y) [0; 1/2; 1/2] /\ In 0 [1/2; 0; 1/2].
+Proof. exact u0_hypotheses_satisfiable. Qed.
